@@ -65,10 +65,11 @@ import (
 
 	"github.com/apernet/hysteria/core/v2/client"
 	"github.com/apernet/hysteria/core/v2/server"
+	"github.com/apernet/hysteria/extras/v2/outbounds"
 )
 
 type c15Step struct {
-	A    string `json:"a"` // connect | reject | close | kick | tcp | udp
+	A    string `json:"a"` // connect | reject | close | kick | tcp | udp | hang | release
 	Slot int    `json:"slot"`
 	ID   int    `json:"id"`
 	N    int    `json:"n"`
@@ -85,6 +86,12 @@ type c15Step struct {
 	Conns    []c15Pend `json:"conns"`
 	Order    []int     `json:"order"`
 	SettleMs int       `json:"settle_ms"`
+	// hang: the connection in slot Slot gets proxy requests whose OUTBOUND DIAL does not return (an unresponsive
+	// target, a slow upstream): Kind "tcp" = N TCP requests, each served by a handleTCPRequest goroutine that sits in
+	// Outbound.TCP; Kind "udp" = one datagram of N bytes on a fresh UDP session, whose first packet makes the
+	// connection's UDP session manager sit in Outbound.UDP.  The dials stay pending until a "release" step for the
+	// slot (they then fail) or the end of the case - in particular across the end of the connection.
+	Kind string `json:"kind"`
 }
 
 type c15Pend struct {
@@ -408,6 +415,112 @@ func (l *c15EvLog) unpaired() string {
 	return ""
 }
 
+// ---------------------------------------------------------------- gated outbound
+
+// c15Gate: the server's Outbound in scripts with "hang" steps.  Addresses of host "<token>.c15hang" are dials that
+// do not return until the token is released (then they fail, like a dial that timed out); everything else goes
+// to the stock direct outbound of extras/outbounds, as the app configures it.
+type c15Gate struct {
+	base    server.Outbound
+	mu      sync.Mutex
+	entered map[string]int           // token -> dials that are inside TCP / UDP
+	rel     map[string]chan struct{} // token -> closed when released
+	left    map[string]int           // token -> dials that have returned
+}
+
+const c15HangSuffix = ".c15hang"
+
+func newC15Gate() *c15Gate {
+	return &c15Gate{
+		base:    &outbounds.PluggableOutboundAdapter{PluggableOutbound: outbounds.NewDirectOutboundSimple(outbounds.DirectOutboundModeAuto)},
+		entered: map[string]int{}, rel: map[string]chan struct{}{}, left: map[string]int{},
+	}
+}
+
+func (g *c15Gate) ch(token string) chan struct{} {
+	g.mu.Lock()
+	defer g.mu.Unlock()
+	c, has := g.rel[token]
+	if !has {
+		c = make(chan struct{})
+		g.rel[token] = c
+	}
+	return c
+}
+
+func (g *c15Gate) token(reqAddr string) (string, bool) {
+	host, _, err := net.SplitHostPort(reqAddr)
+	if err != nil || !strings.HasSuffix(host, c15HangSuffix) {
+		return "", false
+	}
+	return strings.TrimSuffix(host, c15HangSuffix), true
+}
+
+func (g *c15Gate) wait(token string) error {
+	c := g.ch(token)
+	g.mu.Lock()
+	g.entered[token]++
+	g.mu.Unlock()
+	select {
+	case <-c:
+	case <-time.After(c15HangMax):
+	}
+	g.mu.Lock()
+	g.left[token]++
+	g.mu.Unlock()
+	return fmt.Errorf("dial %s: i/o timeout", token)
+}
+
+func (g *c15Gate) TCP(reqAddr string) (net.Conn, error) {
+	if tk, is := g.token(reqAddr); is {
+		return nil, g.wait(tk)
+	}
+	return g.base.TCP(reqAddr)
+}
+
+func (g *c15Gate) UDP(reqAddr string) (server.UDPConn, error) {
+	if tk, is := g.token(reqAddr); is {
+		return nil, g.wait(tk)
+	}
+	return g.base.UDP(reqAddr)
+}
+
+func (g *c15Gate) CheckUDP(reqAddr string) error {
+	if _, is := g.token(reqAddr); is {
+		return nil
+	}
+	return g.base.CheckUDP(reqAddr)
+}
+
+func (g *c15Gate) inside(token string) int {
+	g.mu.Lock()
+	defer g.mu.Unlock()
+	return g.entered[token] - g.left[token]
+}
+
+func (g *c15Gate) release(token string) {
+	c := g.ch(token)
+	g.mu.Lock()
+	defer g.mu.Unlock()
+	select {
+	case <-c:
+	default:
+		close(c)
+	}
+}
+
+func (g *c15Gate) releaseAll() {
+	g.mu.Lock()
+	tokens := make([]string, 0, len(g.rel))
+	for tk := range g.rel {
+		tokens = append(tokens, tk)
+	}
+	g.mu.Unlock()
+	for _, tk := range tokens {
+		g.release(tk)
+	}
+}
+
 // ---------------------------------------------------------------- flows
 
 type c15Rx struct {
@@ -452,6 +565,7 @@ type c15E2EObs struct {
 }
 
 const (
+	c15HangMax = 90 * time.Second // a gated dial that nobody released (the case is long over by then)
 	c15Deliver = 15 * time.Second // bound on a transfer (or its refusal) becoming visible
 	c15Die     = 5 * time.Second  // bound on a refused connection becoming unusable for the client
 )
@@ -482,18 +596,32 @@ func c15E2E(c c15Case, steps []c15Step, res map[string]any) {
 	}
 	authn := &c15Auth{}
 	evlog := &c15EvLog{}
-	srv, err := server.NewServer(&server.Config{
+	scfg := &server.Config{
 		TLSConfig:     server.TLSConfig{Certificates: []tls.Certificate{cert}},
 		Conn:          udpConn,
 		Authenticator: authn,
 		TrafficLogger: tap,
 		EventLogger:   evlog,
-	})
+	}
+	// scripts with pending outbound dials run the server over the gated outbound (all other scripts: the default one)
+	var gate *c15Gate
+	for _, st := range steps {
+		if st.A == "hang" {
+			gate = newC15Gate()
+			scfg.Outbound = gate
+			break
+		}
+	}
+	srv, err := server.NewServer(scfg)
 	if err != nil {
 		fail("setup: %v", err)
 		return
 	}
 	defer srv.Close()
+	if gate != nil {
+		defer gate.releaseAll()
+	}
+	hung := map[int][]string{} // slot -> tokens of its pending dials
 	go srv.Serve()
 
 	// the remote the proxied TCP flows end at: the harness keeps every accepted connection
@@ -1033,6 +1161,94 @@ func c15E2E(c c15Case, steps []c15Step, res map[string]any) {
 			} else {
 				result = "skipped"
 			}
+		case "hang":
+			// proxy requests of the connection whose outbound dial does not return; nothing else happens: no byte is
+			// proxied for a TCP request (no report), the datagram of a UDP session is reported (and accepted) when the
+			// server receives it, before the session is set up
+			cl, has := slots[st.Slot]
+			if !has || gate == nil {
+				result = "skipped"
+				break
+			}
+			id := slotID[st.Slot]
+			token := fmt.Sprintf("s%d-%d", si, st.Slot)
+			want := 1
+			if st.Kind == "udp" {
+				uc, err := cl.UDP()
+				if err != nil {
+					fail("step %d: id %d could not open a UDP session: %v", si, id, err)
+					result = "error:open"
+					break
+				}
+				flows[-1-si] = &c15Flow{udp: true, slot: st.Slot, uc: uc}
+				if err := uc.Send(vGenData(9, uint64(si), st.N), token+c15HangSuffix+":53"); err != nil {
+					fail("step %d: id %d could not send a datagram: %v", si, id, err)
+					result = "error:send"
+					break
+				}
+				sent[id][0] += uint64(st.N)
+			} else {
+				want = st.N
+				for j := 0; j < st.N; j++ {
+					go func() {
+						// returns when the dial is released (a dial error) or the connection is gone
+						if conn, err := cl.TCP(token + c15HangSuffix + ":80"); err == nil {
+							_ = conn.Close()
+						}
+					}()
+				}
+			}
+			t0 := time.Now()
+			for gate.inside(token) < want && time.Since(t0) < 10*time.Second {
+				time.Sleep(2 * time.Millisecond)
+			}
+			if got := gate.inside(token); got != want {
+				fail("step %d: %d of the %d %s request(s) of id %d reached the outbound dial within 10 s", si, got, want, st.Kind, id)
+				result = "error:hang"
+				break
+			}
+			hung[st.Slot] = append(hung[st.Slot], token)
+			if st.Kind == "udp" {
+				// the report of the datagram (ReceiveMessage) precedes the dial
+				nrep := 0
+				for _, e := range tap.since(mark) {
+					if e.Log && e.ID == id && e.OK && e.Tx == uint64(st.N) && e.Rx == 0 {
+						nrep++
+					}
+				}
+				if nrep != 1 {
+					fail("step %d: the %d-byte datagram of id %d (new UDP session, dial pending) was reported %d times", si, st.N, id, nrep)
+				}
+			}
+		case "release":
+			// the pending dials of the slot fail now (whether or not the connection is still there)
+			if gate == nil || len(hung[st.Slot]) == 0 {
+				result = "skipped"
+				break
+			}
+			for _, tk := range hung[st.Slot] {
+				gate.release(tk)
+			}
+			t0 := time.Now()
+			left := 1
+			for left > 0 && time.Since(t0) < 10*time.Second {
+				left = 0
+				for _, tk := range hung[st.Slot] {
+					left += gate.inside(tk)
+				}
+				time.Sleep(2 * time.Millisecond)
+			}
+			delete(hung, st.Slot)
+			if cl, has := slots[st.Slot]; has {
+				a := usable(cl)
+				alive = &a
+				if !a {
+					fail("step %d: id %d lost its connection when its pending dials failed", si, slotID[st.Slot])
+					_ = cl.Close()
+					dropSlot(st.Slot)
+					live[slotID[st.Slot]]--
+				}
+			}
 		case "kick":
 			body, _ := json.Marshal([]string{c.Ids[st.ID]})
 			if r := httpOp("POST", "/kick", string(body)); r.St != 200 {
@@ -1222,7 +1438,19 @@ func c15E2E(c c15Case, steps []c15Step, res map[string]any) {
 		}
 		on, good := census()
 		if !good {
-			fail("step %d (%s): GET /online shows %v, expected census %v (bounded wait expired)", si, st.A, on, live)
+			npend := 0
+			if gate != nil {
+				for _, tks := range hung {
+					for _, tk := range tks {
+						npend += gate.inside(tk)
+					}
+				}
+			}
+			if npend > 0 {
+				fail("step %d (%s): GET /online shows %v, expected census %v (bounded wait of 15 s expired) while %d outbound dial(s) of proxy requests are still pending: the listing must not wait for them", si, st.A, on, live, npend)
+			} else {
+				fail("step %d (%s): GET /online shows %v, expected census %v (bounded wait expired)", si, st.A, on, live)
+			}
 		}
 		pairing(si, st.A, good)
 		ob := c15E2EObs{Step: si, Result: result, Alive: alive, Online: on, Reports: [][]uint64{}, Ups: []int{}, Downs: []int{}, Auths: auths, Pend: pobs}
